@@ -81,7 +81,8 @@ def run_mutant(mut, args):
             res["results"][prop] = entry
             if caught and not args.all_props:
                 break
-        res["status"] = "killed" if caught else "SURVIVED"
+        harness = any(e.get("exit") == 2 for e in res["results"].values())
+        res["status"] = "killed" if caught else ("HARNESS-ERROR" if harness else "SURVIVED")
         return res
     finally:
         shutil.rmtree(scratch, ignore_errors=True)
